@@ -150,7 +150,9 @@ def check_C20(tier):
         for name, o in others:
             reports += o.get("reports", [])
             total_runs += o.get("runs", 0)
-        lib = [r for r in reports if "github.com/akramarenkov/cqos" in r or "race during" in r]
+        # freeh uses slices strictly by the documented ownership rules (the consumer owns copy-mode outputs, the producer owns
+        # what it sent in copy mode): a race between two harness goroutines there is a race on user-visible data
+        lib = [r for r in reports if "github.com/akramarenkov/cqos" in r or "race during" in r or "verifharness/freeh." in r]
         harness_only = [r for r in reports if r not in lib]
         for r in lib[:5]:
             v.violation("C20: the race detector reports a data race involving the library: %s" % r[:400].replace("\n", " | "),
